@@ -432,7 +432,11 @@ class LoaderBase(ABC):
             local_shifts[i] = loc_shift * self.scale
 
         rotator = Rotation.from_quat(local_rot)
-        mole_aligned = self.molecules.linear_transform(local_shifts, rotator)
+        # The sub-volume shows the template rotated by `rotator` about the box center
+        # and then shifted by `local_shifts`, both in the frame of the input molecule.
+        mole_aligned = self.molecules.translate_internal(
+            local_shifts
+        ).rotate_by_rotvec_internal(rotator.as_rotvec())
 
         mole_aligned.features = self.molecules.features.with_columns(
             _misc.get_feature_list(scores, local_shifts, rotator.as_rotvec()),
@@ -569,7 +573,11 @@ class LoaderBase(ABC):
             local_shifts[i] = loc_shift * self.scale
 
         rotator = Rotation.from_quat(local_rot)
-        mole_aligned = self.molecules.linear_transform(local_shifts, rotator)
+        # The sub-volume shows the template rotated by `rotator` about the box center
+        # and then shifted by `local_shifts`, both in the frame of the input molecule.
+        mole_aligned = self.molecules.translate_internal(
+            local_shifts
+        ).rotate_by_rotvec_internal(rotator.as_rotvec())
 
         if remainder > 0:
             labels %= remainder  # type: ignore
